@@ -1012,65 +1012,116 @@ Proof.
   intros s v Hsv l Hin Hs Hle. apply in_or_app. exact (D1 _ _ Hsv _ Hin Hs Hle).
 Qed.
 
-(* ---- truncation while events are in flight: one stream, last line accepted => every SeqID in flight <= lastEventSeq ---- *)
-Definition QQ (s0 : stream) (st : state) : Prop :=
-  (forall e, In e (flight st) -> exists n, lookup (l_stream (e_line e)) (seqs st) = Some n /\ e_seq e <= n) /\
-  (last_seq st = 0 \/ exists s, lookup s (seqs st) = Some (last_seq st)) /\
+(* ---- truncation while events are in flight (repaired worker: job.lastEventSeq = SeqID of the last ACCEPTED line) ----
+   [Q1] (any number of streams): every event in flight carries a SeqID <= the counter of its stream.
+   [QS] (one stream): the counter of every stream is <= lastEventSeq, and only s0 has a counter.            *)
+Definition Q1 (st : state) : Prop :=
+  forall e, In e (flight st) -> exists n, lookup (l_stream (e_line e)) (seqs st) = Some n /\ e_seq e <= n.
+Definition QS (s0 : stream) (st : state) : Prop :=
+  (forall s n, lookup s (seqs st) = Some n -> n <= last_seq st) /\
   (forall s n, In (s, n) (seqs st) -> s = s0).
 
-Lemma qq_init s0 : QQ s0 init.
-Proof. split; [intros ? []|]. split; [now left | intros ? ? []]. Qed.
+Lemma q1_init : Q1 init.
+Proof. intros ? []. Qed.
+Lemma qs_init s0 : QS s0 init.
+Proof. split; [cbn; discriminate | intros ? ? []]. Qed.
 
-Lemma step_qq s0 st a st' : Inv st -> SS s0 st -> QQ s0 st -> step st a = Some st' -> QQ s0 st'.
+Lemma step_q1 st a st' : Inv st -> Q1 st -> step st a = Some st' -> Q1 st'.
 Proof.
-  intros I [S1 [S2 [S3 S4]]] [Q1 [Q2 Q3]] H.
+  intros I Q H.
   inv_step H. rewrite (i_nopanic _ I) in H; cbv beta iota zeta in H.
   destruct a.
-  - destruct (sorted_from (fsize st) ls && (0 <=? part)); [|discriminate]. apply some_inj in H; subst st'; unfold QQ; cbn [upd flight seqs last_seq].
-    split; [exact Q1 | split; [exact Q2 | exact Q3]].
+  - destruct (sorted_from (fsize st) ls && (0 <=? part)); [|discriminate]. apply some_inj in H; subst st'; unfold Q1; cbn [upd flight seqs].
+    exact Q.
   - unfold next_line in H. destruct (find (fun l => pos st <? l_end l) (content st)) as [l|] eqn:Ef; [|discriminate].
-    apply find_some in Ef as [Hin _].
-    destruct (pass_event (cur st) l); apply some_inj in H; subst st'; unfold QQ; cbn [upd flight seqs last_seq]; cbn [upd flight seqs last_seq].
-    + set (q := next_seq (l_stream l) (seqs st)).
-      assert (Hq : forall n, lookup (l_stream l) (seqs st) = Some n -> n < q)
-        by (intros n Hn; unfold q, next_seq; rewrite Hn; lia).
-      split; [|split].
-      * intros e He. apply in_app_or in He as [He|[<-|[]]].
-        -- destruct (Q1 _ He) as [n [Hn Hle]].
-           destruct (stream_eqb (l_stream (e_line e)) (l_stream l)) eqn:Es.
-           ++ apply stream_eqb_eq in Es. rewrite Es in *. exists q. rewrite lookup_set_same. split; [reflexivity|].
-              pose proof (Hq _ Hn). lia.
-           ++ apply stream_eqb_neq in Es. exists n. rewrite lookup_set_other by assumption. auto.
-        -- cbn. exists q. rewrite lookup_set_same. split; [reflexivity | lia].
-      * right. exists (l_stream l). apply lookup_set_same.
-      * intros s n Hsn. apply in_set_off in Hsn as [[-> _]|Hsn]; [now apply S1 | now apply (Q3 s n)].
-    + split; [exact Q1 | split; [now left | exact Q3]].
-  - destruct (next_line st); [discriminate|]. apply some_inj in H; subst st'; unfold QQ; cbn [upd flight seqs last_seq]. split; [exact Q1 | split; [exact Q2 | exact Q3]].
-  - apply some_inj in H; subst st'; unfold QQ; cbn [upd flight seqs last_seq]. split; [exact Q1 | split; [now left | exact Q3]].
+    destruct (pass_event (cur st) l); apply some_inj in H; subst st'; unfold Q1; cbn [upd flight seqs]; [|exact Q].
+    set (q := next_seq (l_stream l) (seqs st)).
+    assert (Hq : forall n, lookup (l_stream l) (seqs st) = Some n -> n < q)
+      by (intros n Hn; unfold q, next_seq; rewrite Hn; lia).
+    intros e He. apply in_app_or in He as [He|[<-|[]]].
+    + destruct (Q _ He) as [n [Hn Hle]].
+      destruct (stream_eqb (l_stream (e_line e)) (l_stream l)) eqn:Es.
+      * apply stream_eqb_eq in Es. rewrite Es in *. exists q. rewrite lookup_set_same. split; [reflexivity|].
+        pose proof (Hq _ Hn). lia.
+      * apply stream_eqb_neq in Es. exists n. rewrite lookup_set_other by assumption. auto.
+    + cbn. exists q. rewrite lookup_set_same. split; [reflexivity | lia].
+  - destruct (next_line st); [discriminate|]. apply some_inj in H; subst st'; unfold Q1; cbn [upd flight seqs]. exact Q.
+  - apply some_inj in H; subst st'; unfold Q1; cbn [upd flight seqs]. exact Q.
   - destruct (nth_error (flight st) k) as [e|] eqn:En; [|discriminate].
-    destruct (e_done e); [discriminate|]. apply some_inj in H; subst st'; unfold QQ; cbn [upd flight seqs last_seq]. cbn [upd flight seqs last_seq].
+    destruct (e_done e); [discriminate|]. apply some_inj in H; subst st'; unfold Q1; cbn [upd flight seqs].
     pose proof (nth_split _ _ _ En) as Hsp.
-    split; [|split; [exact Q2 | exact Q3]].
-    intros x Hx. apply (in_mid _ _ e) in Hx as [->|Hx]; [cbn; apply Q1; rewrite Hsp; apply in_or_app; right; now left|].
-    apply Q1. now rewrite Hsp.
+    intros x Hx. apply (in_mid _ _ e) in Hx as [->|Hx]; [cbn; apply Q; rewrite Hsp; apply in_or_app; right; now left|].
+    apply Q. now rewrite Hsp.
   - destruct (nth_error (flight st) k) as [e|] eqn:En; [|discriminate].
     destruct (e_done e && _); [|discriminate].
     pose proof (nth_split _ _ _ En) as Hsp.
     assert (Hfl : forall x, In x (firstn k (flight st) ++ skipn (S k) (flight st)) ->
                   exists n, lookup (l_stream (e_line x)) (seqs st) = Some n /\ e_seq x <= n).
-    { intros x Hx. apply Q1. rewrite Hsp. now apply in_drop. }
-    destruct (e_seq e <=? ign st); [apply some_inj in H; subst st'; unfold QQ; cbn [upd flight seqs last_seq]; split; [exact Hfl | split; [exact Q2 | exact Q3]]|].
+    { intros x Hx. apply Q. rewrite Hsp. now apply in_drop. }
+    destruct (e_seq e <=? ign st); [apply some_inj in H; subst st'; unfold Q1; cbn [upd flight seqs]; exact Hfl|].
     destruct (lookup (l_stream (e_line e)) (cur st)) as [v|];
-      [destruct (l_end (e_line e) <=? v)|]; apply some_inj in H; subst st'; unfold QQ; cbn [upd flight seqs last_seq]; (split; [exact Hfl | split; [exact Q2 | exact Q3]]).
-  - apply some_inj in H; subst st'; unfold QQ; cbn [upd flight seqs last_seq]. split; [exact Q1 | split; [exact Q2 | exact Q3]].
-  - apply some_inj in H; subst st'; unfold QQ; cbn [upd flight seqs last_seq]. split; [intros ? []|]. split; [now left | intros ? ? []].
+      [destruct (l_end (e_line e) <=? v)|]; apply some_inj in H; subst st'; unfold Q1; cbn [upd flight seqs]; exact Hfl.
+  - apply some_inj in H; subst st'; unfold Q1; cbn [upd flight seqs]. exact Q.
+  - apply some_inj in H; subst st'; unfold Q1; cbn [upd flight seqs]. intros ? [].
   - destruct (sorted_from 0 ls && (0 <=? part) && (top 0 ls + part <? pos st + tail st)); [|discriminate].
-    apply some_inj in H; subst st'; unfold QQ; cbn [upd flight seqs last_seq]. cbn [upd flight seqs last_seq]. split; [|split; [exact Q2 | exact Q3]].
-    intros e He. apply in_map_iff in He as [x [<- Hx]]. cbn. now apply Q1.
+    apply some_inj in H; subst st'; unfold Q1; cbn [upd flight seqs].
+    intros e He. apply in_map_iff in He as [x [<- Hx]]. cbn. now apply Q.
 Qed.
 
-Lemma run_adm_qq s0 acts : forall st st',
-  Inv st -> SS s0 st -> QQ s0 st -> acts_single s0 acts = true -> run_adm st acts = Some st' -> QQ s0 st'.
+Lemma step_qs s0 st a st' : Inv st -> SS s0 st -> QS s0 st -> step st a = Some st' -> QS s0 st'.
+Proof.
+  intros I [S1 [S2 [S3 S4]]] [Q2 Q3] H.
+  inv_step H. rewrite (i_nopanic _ I) in H; cbv beta iota zeta in H.
+  destruct a.
+  - destruct (sorted_from (fsize st) ls && (0 <=? part)); [|discriminate]. apply some_inj in H; subst st'; unfold QS; cbn [upd seqs last_seq].
+    split; [exact Q2 | exact Q3].
+  - unfold next_line in H. destruct (find (fun l => pos st <? l_end l) (content st)) as [l|] eqn:Ef; [|discriminate].
+    apply find_some in Ef as [Hin _].
+    destruct (pass_event (cur st) l); apply some_inj in H; subst st'; unfold QS; cbn [upd seqs last_seq]; [|split; [exact Q2 | exact Q3]].
+    set (q := next_seq (l_stream l) (seqs st)). split.
+    + intros s n Hn. destruct (stream_eqb s (l_stream l)) eqn:Es.
+      * apply stream_eqb_eq in Es. subst s. rewrite lookup_set_same in Hn. apply some_inj in Hn. lia.
+      * apply stream_eqb_neq in Es. rewrite lookup_set_other in Hn by assumption.
+        exfalso. apply Es. apply lookup_In in Hn. rewrite (Q3 _ _ Hn). symmetry. now apply S1.
+    + intros s n Hsn. apply in_set_off in Hsn as [[-> _]|Hsn]; [now apply S1 | now apply (Q3 s n)].
+  - destruct (next_line st); [discriminate|]. apply some_inj in H; subst st'; unfold QS; cbn [upd seqs last_seq]. split; [exact Q2 | exact Q3].
+  - apply some_inj in H; subst st'; unfold QS; cbn [upd seqs last_seq]. split; [exact Q2 | exact Q3].
+  - destruct (nth_error (flight st) k) as [e|] eqn:En; [|discriminate].
+    destruct (e_done e); [discriminate|]. apply some_inj in H; subst st'; unfold QS; cbn [upd seqs last_seq]. split; [exact Q2 | exact Q3].
+  - destruct (nth_error (flight st) k) as [e|] eqn:En; [|discriminate].
+    destruct (e_done e && _); [|discriminate].
+    destruct (e_seq e <=? ign st); [apply some_inj in H; subst st'; unfold QS; cbn [upd seqs last_seq]; split; [exact Q2 | exact Q3]|].
+    destruct (lookup (l_stream (e_line e)) (cur st)) as [v|];
+      [destruct (l_end (e_line e) <=? v)|]; apply some_inj in H; subst st'; unfold QS; cbn [upd seqs last_seq]; (split; [exact Q2 | exact Q3]).
+  - apply some_inj in H; subst st'; unfold QS; cbn [upd seqs last_seq]. split; [exact Q2 | exact Q3].
+  - apply some_inj in H; subst st'; unfold QS; cbn [upd seqs last_seq]. split; [cbn; discriminate | intros ? ? []].
+  - destruct (sorted_from 0 ls && (0 <=? part) && (top 0 ls + part <? pos st + tail st)); [|discriminate].
+    apply some_inj in H; subst st'; unfold QS; cbn [upd seqs last_seq]. split; [exact Q2 | exact Q3].
+Qed.
+
+(* any number of streams: the side condition holds as soon as the counter of every stream that has an event in flight
+   is <= lastEventSeq *)
+Lemma q1_trunc_safe st :
+  Q1 st ->
+  (forall e n, In e (flight st) -> lookup (l_stream (e_line e)) (seqs st) = Some n -> n <= last_seq st) ->
+  trunc_safe st = true.
+Proof.
+  intros Q Hc. unfold trunc_safe. apply forallb_forall. intros e He. destruct (Q _ He) as [n [Hn Hle]].
+  pose proof (Hc _ _ He Hn). lia.
+Qed.
+Lemma qs_trunc_safe s0 st : Q1 st -> QS s0 st -> trunc_safe st = true.
+Proof. intros Q [Q2 _]. apply q1_trunc_safe; [exact Q|]. intros e n _ Hn. exact (Q2 _ _ Hn). Qed.
+
+Lemma run_adm_q1 acts : forall st st', Inv st -> Q1 st -> run_adm st acts = Some st' -> Q1 st'.
+Proof.
+  induction acts as [|a r IH]; intros st st' I Q H; cbn in H.
+  - apply some_inj in H; now subst.
+  - destruct (adm st a) eqn:Ea; [|discriminate]. destruct (step st a) as [st1|] eqn:Es; [|discriminate].
+    eapply IH; [ | | exact H]; [eapply step_inv; eauto | eapply step_q1; eauto].
+Qed.
+
+Lemma run_adm_qs s0 acts : forall st st',
+  Inv st -> SS s0 st -> QS s0 st -> acts_single s0 acts = true -> run_adm st acts = Some st' -> QS s0 st'.
 Proof.
   induction acts as [|a r IH]; intros st st' I S Q Hs H; cbn in H.
   - apply some_inj in H; now subst.
@@ -1079,17 +1130,59 @@ Proof.
     eapply IH; [ | | | exact Hs2 | exact H].
     + eapply step_inv; eauto.
     + eapply step_ss; eauto.
-    + eapply step_qq; eauto.
+    + eapply step_qs; eauto.
 Qed.
 
-Theorem truncate_inflight_single_stream s0 acts st :
-  acts_single s0 acts = true -> run_adm init acts = Some st -> last_seq st <> 0 -> trunc_safe st = true.
+Theorem truncate_inflight_counters acts st :
+  run_adm init acts = Some st ->
+  (forall e n, In e (flight st) -> lookup (l_stream (e_line e)) (seqs st) = Some n -> n <= last_seq st) ->
+  trunc_safe st = true.
 Proof.
-  intros Hs H Hl. destruct (run_adm_qq s0 acts _ _ inv_init (ss_init s0) (qq_init s0) Hs H) as [Q1 [Q2 Q3]].
-  destruct Q2 as [Q2|[s Q2]]; [contradiction|]. pose proof (lookup_In _ _ _ Q2) as Hin. pose proof (Q3 _ _ Hin). subst s.
-  destruct (run_adm_single s0 acts _ _ inv_init (ss_init s0) eq_refl Hs H) as [_ [[_ [S2 _]] _]].
-  unfold trunc_safe. apply forallb_forall. intros e He. destruct (Q1 _ He) as [n [Hn Hle]].
-  rewrite (S2 _ He) in Hn. rewrite Q2 in Hn. inversion Hn; subst. lia.
+  intros H Hc. apply q1_trunc_safe; [|exact Hc]. exact (run_adm_q1 acts _ _ inv_init q1_init H).
+Qed.
+
+(* ONE stream per file: the side condition holds at every instant of every history, whatever is in flight and
+   whatever the last line handed to the pipeline was (accepted, empty, undecodable, already committed) *)
+Theorem truncate_inflight_single_stream s0 acts st :
+  acts_single s0 acts = true -> run_adm init acts = Some st -> trunc_safe st = true.
+Proof.
+  intros Hs H. apply (qs_trunc_safe s0).
+  - exact (run_adm_q1 acts _ _ inv_init q1_init H).
+  - exact (run_adm_qs s0 acts _ _ inv_init (ss_init s0) (qs_init s0) Hs H).
+Qed.
+
+(* hence, with one stream per file, truncations need no side condition at all: a history restricted by the kill window
+   only ([run_kill]: truncations at any instant) is admissible *)
+Lemma run_kill_adm_single s0 acts : forall st st',
+  Inv st -> SS s0 st -> Q1 st -> QS s0 st -> acts_single s0 acts = true ->
+  run_kill st acts = Some st' -> run_adm st acts = Some st'.
+Proof.
+  induction acts as [|a r IH]; intros st st' I S Qa Qb Hs H; cbn in H |- *; [exact H|].
+  cbn in Hs. apply andb_true_iff in Hs as [Hs1 Hs2].
+  destruct (adm_kill st a) eqn:Ek; [|discriminate].
+  assert (Ea : adm st a = true).
+  { destruct a; cbn in Ek |- *; try reflexivity; [exact Ek | exact (qs_trunc_safe s0 _ Qa Qb)]. }
+  rewrite Ea. destruct (step st a) as [st1|] eqn:Es; [|discriminate].
+  apply IH; [ | | | | exact Hs2 | exact H].
+  - eapply step_inv; eauto.
+  - eapply step_ss; eauto.
+  - eapply step_q1; eauto.
+  - eapply step_qs; eauto.
+Qed.
+
+Theorem single_stream_truncations_admissible s0 acts st :
+  acts_single s0 acts = true -> run_kill init acts = Some st ->
+  run_adm init acts = Some st /\ panicked st = false /\
+  (forall l, In l (content st) ->
+     In l (ever st) \/ In l (map e_line (live (flight st))) \/ (pos st < l_end l /\ pass_event (cur st) l = true)) /\
+  (fresh st = true -> no_loss_b (content st) (ever st) (resume_delivered (content st) (disk st)) = true).
+Proof.
+  intros Hs H.
+  pose proof (run_kill_adm_single s0 acts _ _ inv_init (ss_init s0) q1_init (qs_init s0) Hs H) as Ha.
+  destruct (run_adm_single s0 acts _ _ inv_init (ss_init s0) eq_refl Hs Ha) as [I [_ Hg]].
+  split; [exact Ha|]. split; [apply I|]. split.
+  - intros l Hin. destruct (i_cover _ I _ Hin) as [C|[C|[C|C]]]; [now left | rewrite Hg in C; contradiction | right; now left | right; now right].
+  - intro Hf. exact (resume_no_loss_single_stream_adm s0 acts st Hs Ha Hf).
 Qed.
 
 (* ------------------------------------------------------------------ (7) witnesses *)
@@ -1143,26 +1236,51 @@ Definition witness_trunc_inflight_skip : list act :=
    ATruncate [ta 5 43] 0;
    ADeliver 0; ACommit 0; ADeliver 0; ACommit 0; ADeliver 0; ACommit 0; ADeliver 0; ACommit 0; ADeliver 0; ACommit 0;
    ARead].
-(* one stream, the file ends in an empty line: lastEventSeq = 0, nothing is ignored *)
+(* one stream, the file ends in an empty line, four events in flight at the truncation. Before the repair of the worker
+   (lastEventSeq reset to 0 by the empty line) this history ended in the "offset corruption" panic; now lastEventSeq = 4
+   = ignoreEventsLE covers the four old events *)
 Definition witness_trunc_inflight_junk : list act :=
   [AAppend [ta 0 45; ta 1 88; ta 2 131; ta 3 174] 1; ARead; ARead; ARead; ARead; AReadJunk; AReadEOF;
    ATruncate [ta 5 43] 0; ARead;
    ADeliver 0; ACommit 0; ADeliver 0; ACommit 0; ADeliver 0; ACommit 0; ADeliver 0; ACommit 0;
    ADeliver 0; ACommit 0].
+(* the other order: the old commits land before the new line is read *)
+Definition witness_trunc_inflight_junk_skip : list act :=
+  [AAppend [ta 0 45; ta 1 88; ta 2 131; ta 3 174] 1; ARead; ARead; ARead; ARead; AReadJunk; AReadEOF;
+   ATruncate [ta 5 43] 0;
+   ADeliver 0; ACommit 0; ADeliver 0; ACommit 0; ADeliver 0; ACommit 0; ADeliver 0; ACommit 0;
+   ARead; ADeliver 0; ACommit 0].
 
 Theorem truncate_inflight_refuted :
   (exists st, run init witness_trunc_inflight = Some st /\ panicked st = true) /\
   (exists st, run init witness_trunc_inflight_skip = Some st /\ panicked st = false /\
               content st = [ta 5 43] /\ flight st = [] /\ ever st = [] /\ next_line st = None /\
-              cur st = [(sa, 174)] /\ pass_event (cur st) (ta 5 43) = false) /\
-  (exists st, run init witness_trunc_inflight_junk = Some st /\ acts_single sa witness_trunc_inflight_junk = true /\
-              panicked st = true).
+              cur st = [(sa, 174)] /\ pass_event (cur st) (ta 5 43) = false).
 Proof.
-  split; [|split].
+  split.
   - destruct (run init witness_trunc_inflight) as [st|] eqn:E; [|vm_compute in E; discriminate].
     exists st. vm_compute in E. apply some_inj in E. subst st. vm_compute. split; reflexivity.
   - destruct (run init witness_trunc_inflight_skip) as [st|] eqn:E; [|vm_compute in E; discriminate].
     exists st. vm_compute in E. apply some_inj in E. subst st. vm_compute. repeat split; reflexivity.
+Qed.
+
+(* REPAIRED (worker.go: a line the pipeline does not accept keeps job.lastEventSeq): the single-stream history with an
+   empty last line is now admissible (run_adm = run), ignoreEventsLE = 4, nothing panics, the new line (ends at byte 43)
+   is read, delivered and its offset committed; nothing is left in flight or unread — in both orders *)
+Theorem truncate_inflight_blank_line_repaired :
+  acts_single sa witness_trunc_inflight_junk = true /\ acts_single sa witness_trunc_inflight_junk_skip = true /\
+  (exists st, run init witness_trunc_inflight_junk = Some st /\ run_adm init witness_trunc_inflight_junk = Some st /\
+              panicked st = false /\ ign st = 4 /\ content st = [ta 5 43] /\ ever st = [ta 5 43] /\
+              out st = [ta 5 43; ta 3 174; ta 2 131; ta 1 88; ta 0 45] /\
+              flight st = [] /\ next_line st = None /\ cur st = [(sa, 43)]) /\
+  (exists st, run init witness_trunc_inflight_junk_skip = Some st /\ run_adm init witness_trunc_inflight_junk_skip = Some st /\
+              panicked st = false /\ ign st = 4 /\ content st = [ta 5 43] /\ ever st = [ta 5 43] /\
+              out st = [ta 5 43; ta 3 174; ta 2 131; ta 1 88; ta 0 45] /\
+              flight st = [] /\ next_line st = None /\ cur st = [(sa, 43)]).
+Proof.
+  split; [vm_compute; reflexivity|]. split; [vm_compute; reflexivity|]. split.
   - destruct (run init witness_trunc_inflight_junk) as [st|] eqn:E; [|vm_compute in E; discriminate].
+    exists st. vm_compute in E. apply some_inj in E. subst st. vm_compute. repeat split; reflexivity.
+  - destruct (run init witness_trunc_inflight_junk_skip) as [st|] eqn:E; [|vm_compute in E; discriminate].
     exists st. vm_compute in E. apply some_inj in E. subst st. vm_compute. repeat split; reflexivity.
 Qed.
